@@ -302,6 +302,18 @@ func chanFieldOf(c *Ctx, m *multiModel, pump *ssa.Function, v ssa.Value) string 
 			if t, f, _, ok := eng.FieldLoad(o); ok && m.holders[t] {
 				found = t + "." + f
 			}
+			// a channel created in Acquire, kept in a local that the goroutine captures, and stored into the listener's field
+			if mc, ok := o.(*ssa.MakeChan); ok {
+				for T := range m.holders {
+					for _, fl := range c.P.StructFields(T) {
+						for _, st := range c.P.FieldStores(T, fl.Name()) {
+							if st.Val != nil && c.P.AnyFrom(st.Val, eng.Plain, func(x ssa.Value) bool { return x == ssa.Value(mc) }) {
+								found = T + "." + fl.Name()
+							}
+						}
+					}
+				}
+			}
 		}
 	}
 	return found
@@ -372,6 +384,7 @@ func ruleCancelPump(c *Ctx, m *multiModel, rule string) {
 			}
 			return false
 		}
+		stopAtAccepted := func(x ssa.Value) bool { return isAccepted(x, 0) || isAccepted(x, 1) }
 		for _, fn := range family {
 			for _, b := range fn.Blocks {
 				for _, ins := range b.Instrs {
@@ -418,7 +431,7 @@ func ruleCancelPump(c *Ctx, m *multiModel, rule string) {
 								if p.AnyFrom(r, eng.Plain, func(x ssa.Value) bool { return isAccepted(x, 0) }) {
 									return true
 								}
-								for _, o := range fsOrigins(c, r) {
+								for _, o := range fsOrigins(c, r, stopAtAccepted) {
 									if isAccepted(o, 0) {
 										return true
 									}
@@ -436,7 +449,7 @@ func ruleCancelPump(c *Ctx, m *multiModel, rule string) {
 							} else {
 								// in a helper the accept's error arrives as (a field of) a parameter
 								_, fail = p.NilEdges(fn, func(x ssa.Value) bool {
-									for _, o := range fsOrigins(c, x) {
+									for _, o := range fsOrigins(c, x, stopAtAccepted) {
 										if isAccepted(o, 1) {
 											return true
 										}
